@@ -167,7 +167,7 @@ class Run:
         """Instance floor: a rule matching fewer sites than confirmed by hand is broken."""
         if self.violations:
             return  # a violating tree is reported as such; floors guard against vacuous passes only
-        have = self.rules.get(rule_id, {}).get("instances", 0)
+        have = sum(1 for d in self.distinct if d.startswith(rule_id + "|"))
         if have < minimum:
             raise AnalysisError(
                 f"rule {rule_id}: matched {have} instance(s), floor is {minimum} "
